@@ -110,6 +110,13 @@ CLAIMED = {
         note="the reachability and frame obligations are run-time contract checks over a fixed family (bounded), complete over reference paths but not over objects; only the AST inventory is discharged statically; third-party objects (shapely, networkx, rtree, PIL) count as mutable.",
         technique="contract-based verification: ownership (fresh) and frame contracts checked by object-graph reachability on the real classes + AST inventory of the copy routines",
     ),
+    "C18": dict(
+        category="proof",
+        text="remesh.subdivide is executed symbolically on one triangle (the whole domain of the per-face statement) and on two triangles sharing an edge, for every real vertex position: the old vertices stay at their indices, the new vertices are exactly the edge midpoints, every child has the orientation and a quarter of the vector area of a parent, the total vector area and all ten flux integrals of C03's generated spec (volume, first and second moments) are preserved, and the two parents use ONE midpoint index on the common edge (no crack). remesh.subdivide_to_size on one triangle with max_iter 0 and 1, every real vertex and bound: either ValueError or every returned edge is at most the bound, indices in range, vector area preserved. repair.fix_inversion on a ghost mesh with 1, 2, 3 bodies and every real body volume: a single body is inverted iff its volume is negative, of several bodies exactly the negative ones are re-wound (modular over components / mass_properties / invert). Bounded on the real classes: 7 meshes (tetra, box, icosphere, torus, two bodies, open patch, large sphere + small box + small torus): subdivide all / subset / single / twice / loop keeps vertices, area, volume, watertightness, Euler number; subdivide_to_size at scales 1e-4..1e3 and four bounds; fix_normals on every subset of re-wound faces of the tetrahedron (and cube in the thorough tier), seeded subsets elsewhere, every combination of whole bodies inverted; fill_holes after every single and adjacent-pair face removal.",
+        design_ref="DESIGN.md §4 C18",
+        note=TB + "; whole-mesh winding repair (graph traversal, M4) and hole filling are bounded; subdivide on two faces, subdivide_to_size and fix_inversion contracts are bounded-shape / modular.",
+        technique="contract-based deductive verification (symbolic execution of subdivide / subdivide_to_size, modular ghost contract for fix_inversion, z3) + bounded contract evaluation on the real classes",
+    ),
     "C19": dict(
         category="proof",
         text="Every obligation generated from the current source of trimesh/transformations.py (rotation_matrix, quaternion_*, euler_* for all 24 conventions, compose/decompose, transform_points, planar/scale/translate helpers) is discharged by z3/cvc5 for all real inputs: orthonormality, det=+1, round trips, representation agreement, fixed points. Fixed-size matrices, so no bound on inputs.",
